@@ -261,6 +261,49 @@ def run(tier, seed):
         himpl, hmodel = vlib.differential(rep, hbin, hcases, sdir, "hilbert", canon=canon, nontrivial=lambda c, i: True,
                                           clause=lambda c: "hilbert:" + c.split()[0], batch=10 ** 9)     # index outputs are short: one batch
         hilbert_oracles(rep, hcases, himpl)
+        # per-group neighbour lists of the Hilbert ordering (the builder the executors use), both filters: the records of a group must
+        # be exactly the per-cell lists (checked against the model above) of its cells, split into in-range / out-of-range sources
+        gb = []
+        for _ in range(60 if tier == "quick" else 1500):
+            H = rng.choice([3, 4, 4]); l = rng.range(1, H - 1); per = rng.below(2)
+            ncell = 1 << (3 * l)
+            k = rng.range(2, min(14, ncell))
+            start = rng.below(max(1, ncell - 3 * k))
+            cells = sorted(set(start + rng.below(3 * k) for _ in range(k)))
+            cells = [x for x in cells if x < ncell]
+            for up in (0, 1):
+                for ts in (0, 1):
+                    gb.append(("hnblock %d %d %d %d %d %d %s" % (H, per, l, up, ts, len(cells), " ".join(map(str, cells))), cells, H, per, l, up, ts))
+        percell = sorted(set("hnlist %d %d %d %d %d" % (H, per, l, up, c) for _, cells, H, per, l, up, ts in gb for c in cells))
+        pq = os.path.join(sdir, "hblock.cases"); vlib.write_cases(pq, [g[0] for g in gb] + percell)
+        outq = vlib.run_impl(hbin, pq)
+        lists = {}
+        for c, o in zip(percell, outq[len(gb):]):
+            lists[c] = [int(x) for x in o.split()] if not o.startswith(("ABORT", "?")) else None
+        for (c, cells, H, per, l, up, ts), o in zip(gb, outq[:len(gb)]):
+            rep.evaluations += 1
+            if not o.startswith("I"):
+                rep.violation(dict(kind="abort", clause="hilbert:hnblock", has_input=True), "Hilbert per-group neighbour list failed on `%s`: %s" % (c, o[:120]), dict(case=c, impl=o))
+                continue
+            gi, ge = parse_recs(o)
+            ei, ee = [], []
+            ok = True
+            for pos, cidx in enumerate(cells):
+                lst = lists.get("hnlist %d %d %d %d %d" % (H, per, l, up, cidx))
+                if lst is None: ok = False; break
+                for s_ in lst:
+                    if cells[0] <= s_ <= cells[-1]:
+                        if (not ts) or s_ in cells: ei.append((cidx, s_, pos))
+                    else:
+                        ee.append((cidx, s_, pos))
+            if not ok: continue
+            g3i = sorted((a, b, p_) for a, b, p_, _ in gi); g3e = sorted((a, b, p_) for a, b, p_, _ in ge)
+            if g3i != sorted(ei) or g3e != sorted(ee):
+                diff = sorted(set(g3i + g3e) ^ set(ei + ee))[:6]
+                rep.violation(dict(kind="oracle", clause="hilbert:hnblock", has_input=True, ordering="hilbert"),
+                              "Hilbert per-group neighbour list (upper filter %d, self-inclusion test %d) differs from the per-cell lists of its cells on `%s`: (target, source, position) %s" % (up, ts, c[:120], diff),
+                              dict(case=c, impl=o, differing=diff))
+        rep.count("cases:hilbert-hnblock", len(gb))
         rep.coverage["rule"] = ("exhaustive: every cell of levels 0..%s (d=1..4) x {unbox,box,parent,child code, interaction list (periodic/not), neighbour list (periodic/not x upper filter)}; all codes; "
                                 "random cells up to the UB-free level %s; random groups for the block builders. non-trivial = non-empty list / any scalar query; distinct by case text" % ({d: EXH[d][0 if tier == 'quick' else 1] for d in EXH}, SAFE_LEVEL))
         rep.coverage["exhaustive"] = False
